@@ -96,7 +96,7 @@ Qed.
 Theorem one_stream_per_name E s n r r' ps : amem n (st_outs s) = true ->
   step E s (Print (DRedir r n) ps) = step E s (Print (DRedir r' n) ps).
 Proof.
-  intros H. cbn [step]. unfold get_output_stream. rewrite H. reflexivity.
+  intros H. cbn [step]. unfold step_print, get_output_stream. rewrite H. reflexivity.
 Qed.
 
 (* and such a print adds nothing to the log but the write itself *)
@@ -104,7 +104,7 @@ Theorem print_to_open_stream E s n r ps os : amem n (st_ins s) = false -> alooku
   exists s' os', step E s (Print (DRedir r n) ps) = (set_outs s' (aset n os' (st_outs s')), if os_err os' then Fail else Running) /\
     write_ostream E (add_log s (EvWrite (match os_kind os with KFile => WFile n | KCmd => WCmd n end) (concat ps))) n os (concat ps) = (s', os').
 Proof.
-  intros Hi Ho. cbn [step]. unfold get_output_stream, amem at 2. rewrite Hi, Ho. rewrite Ho.
+  intros Hi Ho. cbn [step]. unfold step_print, get_output_stream, amem at 2. rewrite Hi, Ho. rewrite Ho.
   destruct (write_ostream E _ n os (concat ps)) as [s' os'] eqn:Ew. eauto.
 Qed.
 
@@ -114,7 +114,7 @@ Theorem write_failure_after_failed_flush E cap s ps ops :
   e_mode E = Buf cap -> bw_err (st_out s) = true -> ps <> [] ->
   snd (run E s (Print DStdout ps :: ops)) = RError.
 Proof.
-  intros Hm He Hp. unfold run. cbn [exec step get_output_stream].
+  intros Hm He Hp. unfold run. cbn [exec step]. unfold step_print. cbn [get_output_stream].
   unfold write_stdout. rewrite Hm.
   assert (Ht : st_out (add_log (touch E s) (EvWrite WStdout (concat ps))) = st_out s).
   { cbn [st_out add_log]. unfold touch.
